@@ -114,40 +114,65 @@ def usesModel {M : Type} (fitA fitY : List Nat → M) (S : List (List Nat)) (d :
   (List.range S.length).map fun i =>
     (S[i]?, (S[pairIdx S.length i 1]?).map fitA, (S[pairIdx S.length i d]?).map fitY)
 
-private lemma uses_fold {M : Type} (S : List (List Nat)) (A Y : List M) (pe po : List Int) (k : Nat) :
-    ∀ (l : List (Int × Int × Int)) (acc : List (Option (List Nat) × Option M × Option M)),
-      l.foldl (fun st p => st ++ [(Py.get S p.1, Py.get A p.2.1, Py.get Y p.2.2)]) acc
-        = acc ++ l.map (fun p => (Py.get S p.1, Py.get A p.2.1, Py.get Y p.2.2)) :=
-  fun l acc => fold_append_map _ l acc
+/-- the same subscript written with an explicit modulus, `(i - d) % k` -/
+private lemma get_sub_mod {α : Type} (l : List α) (k i d : Nat) (hl : l.length = k) (hi : i < k) (hd : d ≤ k) :
+    Py.get l (Py.mod ((i : Int) - (d : Int)) k) = l[pairIdx k i d]? := by
+  have hk : 0 < k := by omega
+  have e : Py.mod ((i : Int) - (d : Int)) k = (((i + k - d) % k : Nat) : Int) := by
+    unfold Py.mod
+    have : ((i : Int) - (d : Int)) % (k : Int) = ((i + k - d : Nat) : Int) % (k : Int) := by
+      rw [← Int.add_emod_right ((i : Int) - (d : Int)) (k : Int)]
+      congr 1; omega
+    rw [this, Int.natCast_mod]
+  rw [e]
+  unfold Py.get pairIdx
+  have h0 : (0 : Int) ≤ (((i + k - d) % k : Nat) : Int) := Int.natCast_nonneg _
+  simp only [h0, if_true, Int.toNat_natCast]
 
-private lemma zip3_range_map (k : Nat) (f g : Int → Int) :
-    Py.zip3 (Py.range k) ((Py.range k).map f) ((Py.range k).map g)
-      = (List.range k).map (fun (i : Nat) => ((i : Int), f (i : Int), g (i : Int))) := by
-  unfold Py.zip3 Py.range
-  rw [List.map_map, List.map_map]
-  induction List.range k with
-  | nil => rfl
-  | cons a l ih => simp only [List.map_cons, List.zip_cons_cons, ih]; rfl
+private lemma range_getElem (n i : Nat) (h : i < (Py.range n).length) : (Py.range n)[i] = (i : Int) := by
+  simp [Py.range]
 
-private lemma single_core {M : Type} (fitA fitY : List Nat → M) (S : List (List Nat)) (k d : Nat)
-    (hS : S.length = k) (hd1 : 1 ≤ k) (hd : d ≤ k) :
-    (List.range k).map (fun (i : Nat) => (Py.get S (i : Int), Py.get (S.map fitA) ((i : Int) - (1 : Int)),
-        Py.get (S.map fitY) ((i : Int) - (d : Int))))
+private lemma zip3_getElem? {α β γ : Type} (a : List α) (b : List β) (c : List γ) (k : Nat)
+    (ha : a.length = k) (hb : b.length = k) (hc : c.length = k) (i : Nat) (hi : i < k) :
+    (Py.zip3 a b c)[i]? = some (a[i], b[i], c[i]) := by
+  unfold Py.zip3
+  rw [List.getElem?_zip_eq_some]
+  refine ⟨List.getElem?_eq_getElem (by omega), ?_⟩
+  rw [List.getElem?_zip_eq_some]
+  exact ⟨List.getElem?_eq_getElem (by omega), List.getElem?_eq_getElem (by omega)⟩
+
+/-- the prediction loop once its fold is unrolled: if the subscripts with the two pairing lists select the model's
+    positions, the passes are the model's (whatever the spelling of the pairing lists) -/
+private lemma uses_core {M : Type} (fitA fitY : List Nat → M) (S : List (List Nat)) (pe po : List Int) (k d : Nat)
+    (hS : S.length = k) (hpe : pe.length = k) (hpo : po.length = k)
+    (hA : ∀ (i : Nat) (hi : i < pe.length), i < k → Py.get (S.map fitA) pe[i] = (S.map fitA)[pairIdx k i 1]?)
+    (hY : ∀ (i : Nat) (hi : i < po.length), i < k → Py.get (S.map fitY) po[i] = (S.map fitY)[pairIdx k i d]?) :
+    (Py.zip3 (Py.range k) pe po).map (fun p => (Py.get S p.1, Py.get (S.map fitA) p.2.1, Py.get (S.map fitY) p.2.2))
       = usesModel fitA fitY S d := by
   unfold usesModel
   rw [hS]
-  apply List.map_congr_left
-  intro i hi
-  have hi' : i < k := List.mem_range.mp hi
-  have h0 := get_sub S k i 0 hS hi' (by omega)
-  have h1 := get_sub (S.map fitA) k i 1 (by simp [hS]) hi' hd1
-  have h2 := get_sub (S.map fitY) k i d (by simp [hS]) hi' hd
-  have e0 : pairIdx k i 0 = i := by
-    unfold pairIdx
-    rw [Nat.sub_zero, Nat.add_mod_right, Nat.mod_eq_of_lt hi']
-  simp only [Int.ofNat_zero, Int.sub_zero, e0] at h0
-  simp only [Nat.cast_one] at h1
-  rw [h0, h1, h2, List.getElem?_map, List.getElem?_map]
+  apply List.ext_getElem?
+  intro i
+  by_cases hi : i < k
+  · rw [List.getElem?_map, zip3_getElem? _ _ _ k (range_length k) hpe hpo i hi]
+    have h0 := get_sub S k i 0 hS hi (by omega)
+    have e0 : pairIdx k i 0 = i := by
+      unfold pairIdx
+      rw [Nat.sub_zero, Nat.add_mod_right, Nat.mod_eq_of_lt hi]
+    simp only [Int.ofNat_zero, Int.sub_zero, e0] at h0
+    simp only [Option.map_some, range_getElem, h0, hA i (by omega) hi, hY i (by omega) hi, List.getElem?_map,
+      List.getElem?_range hi]
+  · have h1 : (Py.zip3 (Py.range k) pe po).length ≤ i := by
+      unfold Py.zip3; simp only [List.length_zip, range_length, hpe, hpo]; omega
+    simp [h1, hi]
+
+/-- discharges the side conditions of `uses_core` for the spellings `i - d` and `(i - d) % n_splits` -/
+macro "pairing_spelling" hS:term "," hd:term : tactic =>
+  `(tactic| (intro i hi hik
+             simp only [List.getElem_map, range_getElem]
+             first
+             | exact get_sub _ _ i _ (by simp [$hS:term]) hik $hd
+             | exact get_sub_mod _ _ i _ (by simp [$hS:term]) hik $hd))
 
 /-- **The prediction loop of `SingleCrossfitAIPTW._single_crossfit_` / `SingleCrossfitTMLE._single_crossfit_` as
     regenerated** (`pairing_exposure = [i - 1 …]`, `pairing_outcome = pairing_exposure`, the `zip`, Python's
@@ -157,12 +182,13 @@ theorem single_crossfit_generated_single {M : Type} (pick : List Nat → Nat →
     Gen.single_crossfit_SingleCrossfitAIPTW pick fitA fitY rows k = usesModel fitA fitY (sampleSplit pick rows k) 1 ∧
     Gen.single_crossfit_SingleCrossfitTMLE pick fitA fitY rows k = usesModel fitA fitY (sampleSplit pick rows k) 1 := by
   have hS := sampleSplit_length pick rows k hk
-  have core := single_core fitA fitY (sampleSplit pick rows k) k 1 hS hk hk
   constructor <;>
   · simp only [Gen.single_crossfit_SingleCrossfitAIPTW, Gen.single_crossfit_SingleCrossfitTMLE, Py.forIn,
       sample_split_generated, (nuisance_generated _ _).1, (nuisance_generated _ _).2]
-    rw [fold_append_map, zip3_range_map, List.map_map, List.nil_append]
-    exact core
+    rw [fold_append_map, List.nil_append]
+    refine uses_core fitA fitY _ _ _ k 1 hS (by simp [range_length]) (by simp [range_length]) ?_ ?_
+    · pairing_spelling hS, hk
+    · pairing_spelling hS, hk
 
 /-- **The prediction loop of `DoubleCrossfitAIPTW._single_crossfit_` / `DoubleCrossfitTMLE._single_crossfit_` as
     regenerated** (`pairing_exposure = [i - 1 …]`, `pairing_outcome = [i - 2 …]`): part `i` is handed to the
@@ -172,12 +198,14 @@ theorem single_crossfit_generated_double {M : Type} (pick : List Nat → Nat →
     Gen.single_crossfit_DoubleCrossfitAIPTW pick fitA fitY rows k = usesModel fitA fitY (sampleSplit pick rows k) 2 ∧
     Gen.single_crossfit_DoubleCrossfitTMLE pick fitA fitY rows k = usesModel fitA fitY (sampleSplit pick rows k) 2 := by
   have hS := sampleSplit_length pick rows k (by omega)
-  have core := single_core fitA fitY (sampleSplit pick rows k) k 2 hS (by omega) hk
+  have hk1 : 1 ≤ k := by omega
   constructor <;>
   · simp only [Gen.single_crossfit_DoubleCrossfitAIPTW, Gen.single_crossfit_DoubleCrossfitTMLE, Py.forIn,
       sample_split_generated, (nuisance_generated _ _).1, (nuisance_generated _ _).2]
-    rw [fold_append_map, zip3_range_map, List.map_map, List.nil_append]
-    exact core
+    rw [fold_append_map, List.nil_append]
+    refine uses_core fitA fitY _ _ _ k 2 hS (by simp [range_length]) (by simp [range_length]) ?_ ?_
+    · pairing_spelling hS, hk1
+    · pairing_spelling hS, hk
 
 /-! ### The property theorems of `Props/C04.lean`, as statements about the regenerated code -/
 
